@@ -208,7 +208,9 @@ PROGRESS_TEMPLATES = {
 }
 PROGRESS_TOKENS = ["", "class", "interface", "val", "function", "method", "private", "import", "from", "let", "if", "else", "match", "true", "this", "as",
                    "unit", "int", "bool", "(", ")", "{", "}", "[", "]", ",", ";", ":", "::", ".", "->", "=", "|", "&&", "||", "!", "+", "-", "*", "<", ">",
-                   "==", "...", "1", "\"s\"", "a", "A", "#", "@", "'", "\"", "/*", "//", "_", "a.b", "A.b(", "A<", "2147483648"]
+                   "==", "...", "1", "\"s\"", "a", "A", "#", "@", "'", "\"", "/*", "//", "_", "a.b", "A.b(", "A<", "2147483648",
+                   # characters outside ASCII: every one of them is an invalid token outside strings and comments
+                   "\u00e9", "#caf\u00e9", "caf\u00e9 }", "\u540d\u524d", "a\u00a0b", "\U0001F642\U0001F642", "#\u00e9}", "\"\u00e9\"", "/* \u00e9 */ \u00e9", "x\u2028y"]
 
 
 def parser_progress_corpus(res, drv):
